@@ -14,7 +14,7 @@
 From Coq Require Import ZArith List Lia Bool ZifyBool.
 From LZ4V Require Import Gen.Consts Spec.BlockSpec Model.Mem Model.Fast Model.FastApi Model.HcEmit Model.HcMid Model.HcMidApi
      Model.HcChain Model.HcChainApi Model.HcOpt Model.HcOptApi.
-From LZ4V Require Import Proofs.BlockSpecProofs Proofs.FactorSpec Proofs.FastBasics Proofs.FastCap Proofs.FastApiSound.
+From LZ4V Require Import Proofs.BlockSpecProofs Proofs.FactorSpec Proofs.FastBasics Proofs.FastSound Proofs.FastCap Proofs.FastApiSound.
 From LZ4V Require Import Proofs.HcMidSound Proofs.HcMidCap Proofs.HcMidApiSound.
 From LZ4V Require Import Proofs.HcChainSearch Proofs.HcChainSound Proofs.HcChainCap Proofs.HcChainParser Proofs.HcChainApiSound
      Proofs.HcOptParser Proofs.HcOptApiSound.
@@ -164,8 +164,38 @@ Proof.
   cbv zeta. apply cc_generic_all_bytes; assumption.
 Qed.
 
+(* ---- LZ4_compress_fast_extState_fastReset: the byte fact of FastApiSound.compress_generic_nodict_sound at the entry point ---- *)
+Theorem compress_fast_extState_fastReset_bytes c src srcSize cap accel :
+  src_ok src -> ctx_ok c ->
+  let a := compress_fast_extState_fastReset c src srcSize cap accel in
+  0 < a_ret a -> bytes_ok (a_out a) = true.
+Proof.
+  intros Hsrc Hc. unfold compress_fast_extState_fastReset. cbv zeta.
+  pose proof (clamp_accel_ge accel) as Hacc.
+  pose proof (prepareTable_cases c srcSize (ttype_for srcSize) Hc) as P. cbv zeta in P.
+  destruct P as (P0 & P1 & P3 & P4).
+  set (c1 := prepareTable c srcSize (ttype_for srcSize)) in *.
+  assert (P3' : tab_ok (ttype_for srcSize) CNoDict
+                  (match ttype_for srcSize with ByU16 => negb (f_cur c1 =? 0) | ByU32 => false end)
+                  (f_cur c1) (f_dictSize c1) 0 (f_cur c1 + 1) (f_tab c1)) by (rewrite P1; exact P3).
+  destruct P0 as (Q1 & Q2 & Q3 & Q4 & Q5 & Q6).
+  assert (Hix : ttype_for srcSize = ByU16 -> 0 <= srcSize ->
+                f_cur c1 + srcSize - MFLIMIT + 1 <= 65536
+                \/ (match ttype_for srcSize with ByU16 => negb (f_cur c1 =? 0) | ByU32 => false end = true
+                    /\ 65536 <= f_cur c1 - f_dictSize c1)).
+  { intros Et Hn0. left. pose proof (ttype_for_u16 _ Et) as Hlt.
+    destruct (P4 Et Hn0) as [A|A]; [exact A|]. unfold LZ4_64Klimit, MFLIMIT in *. lia. }
+  destruct (cap >=? compressBound srcSize);
+    (match goal with |- 0 < a_ret (compress_generic_nodict ?c ?s ?n ?cp ?od ?t ?sm ?ac) -> _ =>
+       pose proof (compress_generic_nodict_sound c s n cp od t sm ac Hsrc ltac:(discriminate) Hacc
+                     ltac:(lia) Q1 P3' (ttype_for_u16 n) Hix) as H
+     end; cbv zeta in H; destruct H as (_ & _ & A3);
+     intros Hr; destruct (A3 Hr) as (_ & _ & _ & B); exact B).
+Qed.
+
 Print Assumptions mid_compress_bytes.
 Print Assumptions hc_compress_bytes.
 Print Assumptions opt_compress_bytes.
 Print Assumptions compress_HC_fastReset_mid_bytes.
 Print Assumptions compress_HC_fastReset_all_bytes.
+Print Assumptions compress_fast_extState_fastReset_bytes.
